@@ -411,7 +411,7 @@ class SInt:
         raise Unsupported("float() of a symbolic int reached C code")
 
     def __format__(self, spec):
-        return "<sym>"
+        return placeholder(self)
 
     def __repr__(self):
         return f"SInt({z3.simplify(self.e)})"
@@ -523,10 +523,33 @@ class SReal:
         raise Unsupported("float() of a symbolic real reached C code")
 
     def __format__(self, spec):
-        return "<symr>"
+        return placeholder(self)
+
+    def __divmod__(self, o):
+        q = z3.ToReal(z3.ToInt(self.e / rterm(o)))
+        return (SReal(q), SReal(self.e - q * rterm(o)))
+
+    def __mod__(self, o):
+        return divmod(self, o)[1]
 
     def __repr__(self):
         return f"SReal({z3.simplify(self.e)})"
+
+
+PLACEHOLDERS = []
+
+
+def placeholder(v):
+    """text stand-in for a symbolic scalar inside an f-string; a consumer stub can map it back"""
+    PLACEHOLDERS.append(v)
+    return f"\u27e6{len(PLACEHOLDERS) - 1}\u27e7"
+
+
+def from_placeholder(s):
+    """inverse of placeholder() on a single token; returns None if s is not a placeholder"""
+    if len(s) >= 3 and s[0] == "\u27e6" and s[-1] == "\u27e7" and s[1:-1].isdigit():
+        return PLACEHOLDERS[int(s[1:-1])]
+    return None
 
 
 # ---------------------------------------------------------------- builtin shims
